@@ -125,7 +125,10 @@ def check_orientation(ctx: Ctx) -> None:
     ok = len(comp) == 1 and dotted(comp[0].generators[0].iter) == lv and not comp[0].generators[0].ifs and "members" in unparse(comp[0].elt) and dotted(comp[0].generators[0].target) in names_in(comp[0].elt)
     ctx.ob("8.3-once", con3, ok, "each stage must hold the members of every peeled node (and of them only)", node=(comp or [h])[0])
     brk = [s for s in stmts_of(h) if isinstance(s, ast.Break)]
-    ok = len(brk) == 1 and any(v and norm_stmt(cfgh.ast[t].test) == f"not {lv}" for t, v in branch_conditions(cfgh, cfgh.node_of(brk[0])) if cfgh.kind[t] == "test")
+    from gv.props.shared import literal_facts as _lf
+
+    fb = _lf(cfgh, cfgh.node_of(brk[0])) if len(brk) == 1 else {}
+    ok = len(brk) == 1 and (fb.get(lv) is False or fb.get(f"len({lv})") is False or fb.get(f"len({lv}) == 0") is True)
     ctx.ob("8.3-once", con3, ok, "peeling stops only when no leaf is left", node=(brk or [h])[0])
     if rm and acc:
         ok = cfgh.reachable(cfgh.node_of(acc[0]), cfgh.node_of(rm[0])) or cfgh.reachable(cfgh.node_of(rm[0]), cfgh.node_of(acc[0]))
